@@ -14,9 +14,11 @@ COQ_SHARD = 150
 REPLAY_KIND = 'history'
 EXHAUSTIVE = {'quick': False, 'thorough': False}
 RULE = ('seeded random histories of 5..40 operations (create / attribute assignment / multi-column set / syncUpdate / destroySelf / '
+        'expire() and sync() of held instances -- an expire mostly followed by an assignment / set / destroy of the same instance with no read '
+        'in between / '
         'get with and without a cleared cache / select) over an eager and a lazyUpdate class -- each, in 40 % of the cases, a plain subclass '
-        '(base declares a and b, subclass c; listeners registered on the base before the subclass statement, on the subclass, and on the base '
-        'afterwards) --, each with 0..6 listeners drawn from the six '
+        '(base declares a and b, subclass c; listeners registered on the base before the subclass statement -- interleaved with 0..3 that are '
+        'garbage-collected before it --, on the subclass, and on the base afterwards) --, each with 0..6 listeners drawn from the six '
         'row signals x {log, kwargs[c]=v, kwargs.pop(c), post_funcs.append}; streams: valid (no ill-typed value), failing (ill-typed values, missing required column, unknown/destroyed instances), keyset (assignments '
         'whose receivers add/remove a key: delegated to set()), raising (0..3 more listeners per class that raise once, or append a callback '
         'that raises once, at any of the six signals; the history goes on: the later successful operations are judged), chain (0..8 listeners registered before/between/after the class statements of '
@@ -210,9 +212,11 @@ def plain_case(rng, stream):
         if rng.random() < 0.4:
             sub[k] = {'split': rng.randint(0, len(lis[k])),
                       'late': [rand_listener(rng, SIGS, rewrite=(rng.random() < 0.5)) for _ in range(rng.choice([0, 1, 1, 2]))]}
+            # listeners of the base that are gone before the subclass statement, interleaved with the live ones
+            sub[k]['dead'] = [[rng.randint(0, sub[k]['split']), rng.choice(SIGS)] for _ in range(rng.choice([0, 0, 1, 2, 3]))]
     tabs = [list(enumerate(l)) for l in lis]
     nops = rng.randint(5, 40)
-    ops = []
+    ops, noread = [], []
     next_id, have, fired = [1, 1], [[], []], [set(), set()]
     for _ in range(nops):
         k = rng.randrange(2)
@@ -253,8 +257,23 @@ def plain_case(rng, stream):
             ops.append(['assign', k, rid, c, v])
         elif r < 0.62:
             ops.append(['set', k, rid, rand_kw(rng, bad, need_a=False) if rng.random() < 0.93 else []])
-        elif r < 0.74:
+        elif r < 0.70:
             ops.append(['sync', k, rid])
+        elif r < 0.76:
+            # expire() / sync() of a held instance; an expire is mostly followed by an operation on the same instance
+            # with no read in between
+            if rng.random() < 0.7:
+                ops.append(['expire', k, rid])
+                noread.append(len(ops) - 1)
+                c = rng.randrange(3)
+                nxt = rng.random()
+                ops.append(['assign', k, rid, c, rand_val(rng, c, bad)] if nxt < 0.5 else
+                           ['set', k, rid, rand_kw(rng, bad, need_a=False)] if nxt < 0.75 else
+                           ['destroy', k, rid] if nxt < 0.85 else ['sync', k, rid])
+                if rng.random() < 0.5:
+                    noread.append(len(ops) - 1)
+            else:
+                ops.append(['syncfull', k, rid])
         elif r < 0.82:
             ops.append(['destroy', k, rid])
         elif r < 0.92:
@@ -264,6 +283,9 @@ def plain_case(rng, stream):
     case = {'kind': 'plain', 'stream': stream, 'lis': lis, 'ops': ops}
     if sub[0] or sub[1]:
         case['sub'] = sub
+    noread += [i for i in range(len(ops)) if rng.random() < 0.12]
+    if noread:
+        case['noread'] = sorted(set(noread))
     return case
 
 
@@ -336,6 +358,18 @@ def corpus():
          'lis': [[['update', ['set', 1, 'x']], ['updated', ['log']]], [['update', ['log']], ['updated', ['post', 1]]]],
          'ops': [['create', 0, [[0, 1]]], ['assign', 0, 1, 0, 5], ['set', 0, 1, [[0, 6], [2, 3]]], ['create', 1, [[0, 2]]],
                  ['set', 1, 1, [[1, 'q'], [2, 4]]], ['assign', 1, 1, 0, 3], ['sync', 1, 1], ['destroy', 0, 1], ['destroy', 1, 1]]},
+        # expire() then an assignment / a set / a destroy with no read in between: the after-event and its callback are due;
+        # a lazy instance loses what it held back; sync() of a destroyed instance
+        {'kind': 'plain', 'stream': 'valid', 'noread': [1, 2, 4, 5, 7],
+         'lis': [[['update', ['log']], ['updated', ['post', 1]], ['destroyed', ['log']]], [['updated', ['log']]]],
+         'ops': [['create', 0, [[0, 1]]], ['expire', 0, 1], ['assign', 0, 1, 0, 5], ['assign', 0, 1, 1, 'x'], ['expire', 0, 1],
+                 ['set', 0, 1, [[0, 6], [2, 3]]], ['create', 1, [[0, 2]]], ['assign', 1, 1, 0, 9], ['expire', 1, 1], ['sync', 1, 1],
+                 ['assign', 1, 1, 2, 4], ['syncfull', 1, 1], ['expire', 0, 1], ['destroy', 0, 1], ['syncfull', 0, 1]]},
+        # base listeners that died before the subclass statement, each followed by a live one that must be cloned
+        {'kind': 'plain', 'stream': 'valid',
+         'sub': [{'split': 3, 'late': [], 'dead': [[0, 'create'], [1, 'update'], [1, 'created'], [2, 'updated']]}, None],
+         'lis': [[['create', ['log']], ['created', ['post', 1]], ['updated', ['log']], ['update', ['log']]], []],
+         'ops': [['create', 0, [[0, 1]]], ['assign', 0, 1, 0, 5], ['set', 0, 1, [[1, 'q'], [2, 3]]], ['destroy', 0, 1]]},
         # a create-finished receiver / callback raises once; the later creations (same class, other class, chain) must still get theirs
         {'kind': 'plain', 'stream': 'raising', 'lis': [[['created', ['raise']], ['created', ['log']]], [['created', ['post', 1]]]],
          'ops': [['create', 0, [[0, 1]]], ['create', 0, [[0, 2]]], ['create', 1, [[0, 3]]], ['assign', 0, 2, 0, 5]]},
@@ -523,6 +557,7 @@ def _alarm(*_a):
 
 
 def run_plain(case):
+    import gc
     import signal
     from sqlobject import SQLObject, IntCol, StringCol, events
     from sqlobject.sqlite.sqliteconnection import SQLiteConnection
@@ -560,7 +595,18 @@ def run_plain(case):
                 'sqlmeta': type('sqlmeta', (), dict(meta, table=table + '_base')), '_connection': conn,
                 'a': IntCol(), 'b': StringCol(default=None)})
             classes[k] = B          # receivers look their class up when called, not now
-            listen_all(numbered[:sub[k]['split']], k, B)
+            # `dead`: [position, signal] -- before the listener at that position a further receiver is registered on the base
+            # and dropped at once (weakly referenced: gone before the subclass statement; numbered from 2000, never heard of)
+            dead = sorted(sub[k].get('dead') or [])
+            for pos in range(sub[k]['split'] + 1):
+                for j, (dp, dsig) in enumerate(dead):
+                    if dp == pos:
+                        r = _make_receiver(events, trace, classes, dsig, ['log'], 2000 + j)
+                        events.listen(r, B, sigs[dsig])
+                        del r
+                        gc.collect()
+                if pos < sub[k]['split']:
+                    listen_all(numbered[pos:pos + 1], k, B)
             K = type(SQLObject)('VC19Sub_%d' % k, (B,), {
                 'sqlmeta': type('sqlmeta', (), dict(meta)), 'c': IntCol(default=7)})
             classes[k] = K
@@ -631,11 +677,16 @@ def run_plain(case):
             o.syncUpdate()
         elif t == 'destroy':
             o.destroySelf()
+        elif t == 'expire':
+            o.expire()
+        elif t == 'syncfull':
+            o.sync()
         else:
             raise ValueError('unknown op %r' % (op,))
         return 'done'
 
     steps = []
+    noread = set(case.get('noread') or [])
     try:
         old_handler = signal.signal(signal.SIGALRM, _alarm)
         for op in case['ops']:
@@ -651,7 +702,9 @@ def run_plain(case):
             tb = dump()
             hv = hview()
             del trace[:]
-            av = aview()
+            # reading reloads an expired instance: the steps in case['noread'] are not followed by the reads, so that the
+            # next operation meets the instance as the previous one left it
+            av = aview() if len(steps) not in noread else [[], []]
             steps.append({'out': out, 'tr': steps_trace, 'tables': tb, 'handles': hv, 'attrs': av, 'read_tr': list(trace)})
             if out == ['exn', 'other:OpTimeout']:
                 break           # the instance's write lock is still held: the rest of the history would hang again
@@ -837,6 +890,10 @@ def cop(op):
         return '(ODestroy %s %s)' % (k, z(op[2]))
     if t == 'get':
         return '(OGet %s %s %s)' % (k, z(op[2]), 'true' if op[3] else 'false')
+    if t == 'expire':
+        return '(OExpire %s %s)' % (k, z(op[2]))
+    if t == 'syncfull':
+        return '(OSyncFull %s %s)' % (k, z(op[2]))
     return '(OSelect %s)' % k
 
 
@@ -946,7 +1003,11 @@ def _expect_plain2(tabs, op, pre_tables, pre_handles, post_tables, fired):
             return True, evs, pre_tables[k]
         w = sort_cols(kw)
         return True, evs + ([['w', 'upd', k, rid, w]] if w else []) + after_part(table, 'updated', k, rid, fired), upd_table(w)
-    if t == 'sync':
+    if t == 'expire':
+        return True, [], pre_tables[k]
+    if t == 'syncfull' and rid not in [r[0] for r in pre_tables[k]]:
+        return False, None, None          # the row is gone: SQLObjectNotFound (after the pending values were flushed)
+    if t in ('sync', 'syncfull'):
         if not pend:
             return True, [], pre_tables[k]
         w = sort_cols(mk_kw(pend))
@@ -982,7 +1043,8 @@ def _attrs_ok(s):
         pend = dict((h[0], dict((c, v) for c, v in h[1])) for h in s['handles'][k])
         for rid, vals in s.get('attrs', [[], []])[k]:
             bad = [[COLS[n], v[1]] for n, v in enumerate(vals) if v[0] == 'error']
-            if bad:
+            if bad and (rid in rows or not all('SQLObjectNotFound' in b[1] for b in bad)):
+                # (an expired instance whose row is gone cannot be reloaded: SQLObjectNotFound is the answer then)
                 return {'what': 'a column attribute of a held instance cannot be read', 'class': k, 'id': rid, 'actual': bad}
             if rid in rows:
                 want = [pend.get(rid, {}).get(n, rows[rid][n]) for n in range(3)]
@@ -1133,7 +1195,7 @@ def nontrivial(c, o):
 
 
 def key(c):
-    return [c['kind'], c.get('lis') or c.get('script'), c.get('sub'), c['ops']]
+    return [c['kind'], c.get('lis') or c.get('script'), c.get('sub'), c.get('noread'), c['ops']]
 
 
 def distribution(cases, obs):
